@@ -26,8 +26,8 @@ ASSUMPTIONS = ["RLIMIT_FSIZE stands in for a full file system and applies to eve
                "targeted file the largest one (values: 64 KB of data; indices: 8192 one-element subarrays = 128 KB of index rows)",
                "overflow = the end index of an appended subarray does not fit the index type"]
 EXHAUSTIVE = "the F-fsize grid for the values file and for the indices file"
-KINDS = ['raise', 'badatom', 'badrank', 'unconv', 'overflow', 'numstr', 'bare-scalar']
-MUST_HIT = ['iter:inside-open-context'] + ['iter:' + k for k in KINDS] + ['iter:append', 'iter:iterappend', 'iter:empty-start', 'iter:p=0', 'iter:p>0',
+KINDS = ['raise', 'badatom', 'badrank', 'unconv', 'overflow', 'numstr', 'bare-scalar', 'atomshaped']
+MUST_HIT = ['iter:inside-open-context', 'fsize:refused-in-buffered-tail-of-big-item'] + ['iter:' + k for k in KINDS] + ['iter:append', 'iter:iterappend', 'iter:empty-start', 'iter:p=0', 'iter:p>0',
                                              'fsize:values', 'fsize:indices', 'fsize:loud', 'fsize:silent', 'fsize:mid-row', 'fsize:on-boundary']
 IDXMAX = {'int8': 127, 'uint8': 255, 'int16': 32767}
 
@@ -60,6 +60,8 @@ def bad_item(kind, dt, atom):
         return np.zeros((2,) + atom + (2,), dtype=dt)
     if kind == 'unconv':
         return [['x', 'y']] if atom else ['x']
+    if kind == 'atomshaped':
+        return np.zeros(atom if atom else (), dtype=dt) if atom else 5.0     # exactly one row without the first axis
     if kind == 'numstr':
         return '12'          # converts to ONE number although len('12') == 2: not an item with a first axis
     if kind == 'bare-scalar':
@@ -209,9 +211,11 @@ def _start_state(ctx, target):
 
 def fsize_specs():
     for target in ('values', 'indices'):
-        regimes = ('loud', 'silent') if target == 'values' else ('silent',)
-        offs = ('boundary', '+1', '+3', '+8', 'half', 'end-1') if target == 'values' else ('boundary', '+1', '+8', '+15', 'row')
+        regimes = ('loud', 'silent', 'bigtail') if target == 'values' else ('silent',)
         for regime, n in itertools.product(regimes, (1, 2, 3)):
+            offs = ('boundary', '+1', '+3', '+8', 'half', 'end-1') if target == 'values' else ('boundary', '+1', '+8', '+15', 'row')
+            if regime == 'bigtail':
+                offs = ('half', 'tail+8', 'tail+1000', 'end-100', 'end-1')
             for p in range(n):
                 for off in offs:
                     for via in (['iterappend'] if n > 1 else ['append', 'iterappend']):
@@ -226,7 +230,8 @@ def _exec_fsize(ctx, spec):
     out.cls('fsize:' + target, 'fsize:' + spec['regime'])
     if target == 'values':
         dt = np.dtype('<i8')
-        lens = [4096] * spec['n'] if spec['regime'] == 'loud' else [[24, 2, 62][i % 3] for i in range(spec['n'])]
+        lens = [4096] * spec['n'] if spec['regime'] == 'loud' else [9002] * spec['n'] if spec['regime'] == 'bigtail' else \
+            [[24, 2, 62][i % 3] for i in range(spec['n'])]
         unit, base = 8, 8192 * 8
         bounds = [base]
         for ln in lens:
@@ -238,7 +243,11 @@ def _exec_fsize(ctx, spec):
         bounds = [base + 16 * i for i in range(spec['n'] + 1)]
     p = spec['p']
     b0, b1 = bounds[p], bounds[p + 1]
-    L = {'boundary': b0, '+1': b0 + 1, '+3': b0 + 3, '+8': b0 + 8, '+15': b0 + 15, 'half': b0 + (b1 - b0) // 2 + 4, 'end-1': b1 - 1, 'row': b1}[spec['off']]
+    tailstart = b1 - (b1 - b0) % 4096
+    L = {'boundary': b0, '+1': b0 + 1, '+3': b0 + 3, '+8': b0 + 8, '+15': b0 + 15, 'half': b0 + (b1 - b0) // 2 + 4, 'end-1': b1 - 1, 'row': b1,
+         'tail+8': tailstart + 8, 'tail+1000': tailstart + 1000, 'end-100': b1 - 100}[spec['off']]
+    if spec['regime'] == 'bigtail':
+        out.cls('fsize:refused-in-buffered-tail-of-big-item')
     if spec['off'] == 'row' and p + 1 >= spec['n']:
         out.nontrivial = False
         return out      # everything fits: no fault
@@ -252,6 +261,7 @@ def _exec_fsize(ctx, spec):
         shutil.copytree(src, path)
         ra = darr.RaggedArray(path, accessmode='r+')
         items = [((np.arange(ln, dtype='int64') + 1) * (3 + i) % 100).astype(dt) for i, ln in enumerate(lens)]
+        out.cls('fsize:loud') if spec['regime'] == 'bigtail' else None
         want = start_items + items[:ndone]
         tag = f"fsize:{target}:{spec['regime']}:{'first' if p == 0 else 'later'}-item:{spec['off']}"
 
